@@ -15,6 +15,9 @@ TRAP_LITERAL = {'PLUS': '+', 'COLON': ':', 'MINUS': '-', 'DOT': '.', 'A': 'a', '
 # terminals defined by alternatives (lark joins them into one regexp, longest option first); the widest alternative contains the others, so that the
 # joined regexp's preferred match is the longest one (outside finding F6's region); as meant: one terminal per alternative under an inlined rule
 ALT_TERMS = [('T7', ['"ab"', '/[ab]+/']), ('T8', ['"a"', '/a+/']), ('T9', ['"ba"', '"b"', '/b[ab]*/']), ('T7', ['/[ab]+/', '"ab"', '"abb"'])]
+# terminals defined by a *sequence* of items one of which is a regexp alternation (lark concatenates the items' regexps into one): as meant, one terminal
+# per item under an inlined rule (no ignored text in these grammars, so the two readings have the same language)
+SEQ_TERMS = [('T10', ['/a|b/', '"c"']), ('T10', ['"a"', '/b|c/']), ('T11', ['/ab|c/', '"b"']), ('T11', ['"c"', '/a|b/', '"c"']), ('T10', ['/a|b/', '/b|c/'])]
 IGNORES = [('" "', [' ']), ('/ +/', [' ', '  '])]
 
 
@@ -31,6 +34,10 @@ def gen(rng):
     if rng.random() < 0.25:
         alt_term = rng.choice(ALT_TERMS)
         named[alt_term[0]] = ' | '.join(alt_term[1])
+    seq_term = None
+    if alt_term is None and rng.random() < 0.15:
+        seq_term = rng.choice(SEQ_TERMS)
+        named[seq_term[0]] = ' '.join(seq_term[1])
     tn = list(named)
     def sym(pool_nts):
         r = rng.random()
@@ -53,6 +60,8 @@ def gen(rng):
         a.insert(rng.randint(0, len(a)), ('lit', lit))
     if alt_term and not any(x == ('T', alt_term[0]) for n in rules for a in rules[n] for x in a):
         rules['start'].append([('T', alt_term[0])] + ([('T', alt_term[0])] if rng.random() < 0.5 else []))
+    if seq_term and not any(x == ('T', seq_term[0]) for n in rules for a in rules[n] for x in a):
+        rules['start'].append([('T', seq_term[0])] + ([('T', seq_term[0])] if rng.random() < 0.5 else []))
     # a large ranged repetition (compiled through factored helper rules): `"c" x~n..m` as one more alternative of start
     big = None
     if rng.random() < 0.1:
@@ -69,8 +78,8 @@ def gen(rng):
             if i + 1 < k: body.append(('nt', names[i + 1]))
             rules[n] = [body] + ([[('lit', rng.choice(LITS))]] if rng.random() < 0.3 else [])
         dead += names
-    ign = rng.choice(IGNORES) if rng.random() < 0.5 else None
-    return {'rules': rules, 'named': named, 'ignore': ign, 'big': big, 'alt_term': alt_term}
+    ign = rng.choice(IGNORES) if rng.random() < 0.5 and not seq_term else None
+    return {'rules': rules, 'named': named, 'ignore': ign, 'big': big, 'alt_term': alt_term, 'seq_term': seq_term}
 
 
 def _render(rules, named, ign, lit_name=None):
@@ -125,6 +134,13 @@ def as_meant(ast):
             lnamed['_%s_%d' % (tname, i)] = a_
         lrules = {n: [[(('nt', '_alt_' + tname.lower()) if x == ('T', tname) else x) for x in a] for a in alts] for n, alts in lrules.items()}
         lrules['_alt_' + tname.lower()] = [[('T', '_%s_%d' % (tname, i))] for i in range(len(alts_))]
+    if ast.get('seq_term') and ast['seq_term'][0] in lnamed:
+        tname, parts_ = ast['seq_term']
+        del lnamed[tname]
+        for i, a_ in enumerate(parts_):
+            lnamed['_%s_%d' % (tname, i)] = a_ if a_.startswith('"') else '/(?:%s)/' % a_[1:-1]
+        lrules = {n: [[(('nt', '_seq_' + tname.lower()) if x == ('T', tname) else x) for x in a] for a in alts] for n, alts in lrules.items()}
+        lrules['_seq_' + tname.lower()] = [[('T', '_%s_%d' % (tname, i)) for i in range(len(parts_))]]
     txt = _render(lrules, lnamed, ast['ignore'], lit_name)
     if ast.get('big'):
         item, lo, hi = ast['big']
@@ -142,7 +158,7 @@ def _case(seed):
     rec = {'as_written': gw, 'as_meant': gm, 'diffs': [], 'compared': 0, 'builds': {}}
     texts = None
     for lexer in ('basic', 'dynamic', 'dynamic_complete'):
-        if ast.get('alt_term') and lexer != 'dynamic_complete':
+        if (ast.get('alt_term') or ast.get('seq_term')) and lexer != 'dynamic_complete':
             continue        # one terminal per alternative tokenises differently under the other lexers; the exact language is dynamic_complete's
         ps = []
         for g in (gw, gm):
